@@ -126,7 +126,64 @@ static int op_refdp(int argc, char **argv, FILE *out)
         return 0;
 }
 
+/* refsp <biotype> <type> <gpoBits> <gpeBits> <tgpeBits> <row>...   rows = comma separated residue codes, -1 for a gap, all of one length
+   -> "sp=<%.4f>": sum over all pairs of rows of the score of the induced pairwise alignment (columns where both rows have a gap dropped) under the
+   parameters aln_param_init selects for (biotype, type, overrides): substitution score per aligned pair, an internal gap run of L columns costs
+   gpo + (L-1)*gpe + gpo, a leading or trailing run L*tgpe (the reading S_T of refdp) */
+static int op_refsp(int argc, char **argv, FILE *out)
+{
+        if(argc < 7) return 1;
+        int nr = argc - 5;
+        struct kv_ints *R = calloc(nr, sizeof(*R));
+        int bad = 0, L = -1;
+        for(int r = 0; r < nr; r++){
+                if(kv_parse_ints(argv[5 + r], &R[r])){ bad = 1; nr = r; break; }
+                if(L < 0) L = R[r].n; else if(R[r].n != L) bad = 1;
+                for(int k = 0; k < R[r].n; k++) if(R[r].v[k] < -1 || R[r].v[k] > 22) bad = 1;
+        }
+        struct aln_param *ap = NULL;
+        if(bad || aln_param_init(&ap, atoi(argv[0]), 1, atoi(argv[1]), bitsf(argv[2]), bitsf(argv[3]), bitsf(argv[4])) != OK){
+                for(int r = 0; r < nr; r++) kv_free_ints(&R[r]);
+                free(R); fputs(bad ? "bad-rows" : "param-fail", out); return 0;
+        }
+        double gpo = ap->gpo, gpe = ap->gpe, tgpe = ap->tgpe, sp = 0.0;
+        for(int x = 0; x < nr; x++) for(int y = x + 1; y < nr; y++){
+                /* runs of the projected pair: state 0 aligned, 1 gap in x, 2 gap in y */
+                int st = -1, run = 0, seen_any = 0;
+                double sc = 0.0;
+                int first_run_state = -1; int nruns = 0;
+                for(int k = 0; k <= L; k++){
+                        int cur;
+                        if(k == L) cur = -2;
+                        else{
+                                int a = R[x].v[k], b = R[y].v[k];
+                                if(a < 0 && b < 0) continue;
+                                cur = (a >= 0 && b >= 0) ? 0 : (a < 0 ? 1 : 2);
+                                if(cur == 0) sc += ap->subm[a][b];
+                        }
+                        if(cur != st){
+                                if(st == 1 || st == 2){
+                                        int leading = !seen_any;            /* nothing before this run */
+                                        int trailing = (cur == -2);
+                                        if(leading || trailing) sc -= run * tgpe; else sc -= 2.0 * gpo + (run - 1) * gpe;
+                                        nruns++;
+                                }
+                                if(st >= 0) seen_any = 1;
+                                st = cur; run = 0;
+                        }
+                        run++;
+                }
+                (void)first_run_state; (void)nruns;
+                sp += sc;
+        }
+        fprintf(out, "sp=%.4f", sp);
+        for(int r = 0; r < nr; r++) kv_free_ints(&R[r]);
+        free(R); aln_param_free(ap);
+        return 0;
+}
+
 struct kv_op kv_ops_ref[] = {
         {"refdp", op_refdp},
+        {"refsp", op_refsp},
         {NULL, NULL}
 };
